@@ -66,7 +66,7 @@ pub enum Fin { Leave, Clear, Abandon, Msg(String), AbandonMsg(String) }
 
 impl Fin {
     fn enc(&self) -> String { match self { Fin::Leave => "leave".into(), Fin::Clear => "clear".into(), Fin::Abandon => "abandon".into(), Fin::Msg(m) => format!("msg {}", enc(m)), Fin::AbandonMsg(m) => format!("abandonmsg {}", enc(m)) } }
-    fn to_pf(&self) -> ProgressFinish { match self { Fin::Leave => ProgressFinish::AndLeave, Fin::Clear => ProgressFinish::AndClear, Fin::Abandon => ProgressFinish::Abandon, Fin::Msg(m) => ProgressFinish::WithMessage(m.clone().into()), Fin::AbandonMsg(m) => ProgressFinish::AbandonWithMessage(m.clone().into()) } }
+    pub fn to_pf(&self) -> ProgressFinish { match self { Fin::Leave => ProgressFinish::AndLeave, Fin::Clear => ProgressFinish::AndClear, Fin::Abandon => ProgressFinish::Abandon, Fin::Msg(m) => ProgressFinish::WithMessage(m.clone().into()), Fin::AbandonMsg(m) => ProgressFinish::AbandonWithMessage(m.clone().into()) } }
 }
 impl BOp {
     pub fn enc(&self) -> String {
